@@ -38,6 +38,7 @@ type scenario struct {
 	AnnAt     []int    `json:"announce_at_ms,omitempty"` // per announcer thread: announcement time (staggered scenarios)
 	Pool      bool     `json:"pool_like_holder,omitempty"` // holder like the tx pool: 1 parallel pull, arrival does not call RemovePull
 	HorizonMs int      `json:"horizon_ms,omitempty"`     // virtual-time horizon (default 3.5 pull delays)
+	FullUntil int      `json:"queue_full_until_ms,omitempty"` // >0: the manager's outgoing pull queue is full from the start and drained at this time
 }
 
 func (sc scenario) cap() int {
@@ -133,7 +134,14 @@ func scenarioBody(sc scenario, o *obs, trackerP **pushpull.DefaultPushTracker, h
 			}
 		}
 		e.Go("manager-loop", func() { m.VerifLoop(holder) })
+		if sc.FullUntil > 0 {
+			m.VerifFillRequests()
+		}
 		e.Go("recorder", func() {
+			if sc.FullUntil > 0 {
+				e.Sleep(time.Duration(sc.FullUntil) * time.Millisecond)
+				m.VerifDrainRequests()
+			}
 			for {
 				p, h := m.VerifRecvRequest()
 				hi := int(h[0]) - 1
@@ -185,6 +193,37 @@ func judge(sc scenario, x *sched.Exec, o *obs) (string, string) {
 	byHash := map[int][]req{}
 	for _, r := range o.reqs {
 		byHash[r.hash] = append(byHash[r.hash], r)
+	}
+	if sc.FullUntil > 0 {
+		// the announcements made while the queue was full were throttled (by design no request is sent for them);
+		// the item never arrives: every announcer that announced after the queue was drained could still serve it
+		// and must be asked within the horizon, one pull delay apart, and nobody else
+		for h := range sc.ArriveAt {
+			late := map[string]bool{}
+			all := map[string]bool{}
+			for i, a := range sc.Announce {
+				if a[1] != h {
+					continue
+				}
+				all[fmt.Sprintf("P%d", a[0])] = true
+				if sc.AnnAt[i] > sc.FullUntil {
+					late[fmt.Sprintf("P%d", a[0])] = true
+				}
+			}
+			asked := map[string]bool{}
+			for _, r := range byHash[h] {
+				if !all[r.peer] {
+					return "request-to-non-announcer", fmt.Sprintf("hash %d requested from %s which never announced it", h, r.peer)
+				}
+				asked[r.peer] = true
+			}
+			for p := range late {
+				if !asked[p] {
+					return "announcer-lost-after-throttled-pull", fmt.Sprintf("hash %d never arrived; its first announcements were throttled (pull queue full until %dms); %s announced it afterwards and was never asked within %v (requests: %v)", h, sc.FullUntil, p, sc.horizon(), byHash[h])
+				}
+			}
+		}
+		return "", ""
 	}
 	for h := range sc.ArriveAt {
 		rs := byHash[h]
@@ -332,6 +371,16 @@ func scenarios(thorough bool) []scenario {
 			Announce: [][2]int{{1, 0}, {2, 0}, {3, 0}}, AnnAt: []int{0, 0, 0}, ArriveAt: []int{50}, Preheld: []bool{false}},
 		scenario{Name: "default holder: A by 5 peers at 0..40, B by 5 peers at 5..130", HorizonMs: 900,
 			Announce: [][2]int{{1, 0}, {2, 0}, {3, 0}, {4, 0}, {5, 0}, {1, 1}, {2, 1}, {3, 1}, {4, 1}, {5, 1}}, AnnAt: []int{0, 10, 20, 30, 40, 5, 15, 25, 110, 130}, ArriveAt: []int{-1, -1}, Preheld: []bool{false, false}},
+	)
+	// the manager's outgoing pull queue (5000 slots) is full while the first announcers announce: their pulls are
+	// throttled; announcers that come after the queue was drained must still be asked (fall-back via the tracker)
+	out = append(out,
+		scenario{Name: "pool-like holder: pull queue full until 10ms, P1 at 0 (throttled), P2 at 20, P3 at 30, never arrives", Pool: true, HorizonMs: 700, FullUntil: 10,
+			Announce: [][2]int{{1, 0}, {2, 0}, {3, 0}}, AnnAt: []int{0, 20, 30}, ArriveAt: []int{-1}, Preheld: []bool{false}},
+		scenario{Name: "default holder: pull queue full until 10ms, P1..P3 at 0 (throttled), P4 at 20, P5 at 30, never arrives", HorizonMs: 700, FullUntil: 10,
+			Announce: [][2]int{{1, 0}, {2, 0}, {3, 0}, {4, 0}, {5, 0}}, AnnAt: []int{0, 0, 0, 20, 30}, ArriveAt: []int{-1}, Preheld: []bool{false}},
+		scenario{Name: "default holder: pull queue full until 10ms, P1 at 0 (throttled), P2, P3 at 20 (immediate), P4 at 30, never arrives", HorizonMs: 700, FullUntil: 10,
+			Announce: [][2]int{{1, 0}, {2, 0}, {3, 0}, {4, 0}}, AnnAt: []int{0, 20, 20, 30}, ArriveAt: []int{-1}, Preheld: []bool{false}},
 	)
 	if thorough {
 		out = append(out, scenario{Name: "two items, 3 peers each, staggered arrivals", Announce: [][2]int{{1, 0}, {2, 0}, {3, 0}, {1, 1}, {2, 1}, {3, 1}}, ArriveAt: []int{120, 220}, Preheld: []bool{false, false}})
